@@ -454,6 +454,7 @@ def shard(tier, i, n, seed):
     common.setup_repo()
     acc = common.Acc()
     tree = Tree()
+    acc.outcome('tz|' + common.set_tz(i))
     try:
         counter = [0]
         for ci, cfg in enumerate(configs(tier)):
@@ -487,6 +488,16 @@ def finish(tier, merged, results):
 
 
 def replay(case):
+    # the shards rotate through the time zones of mc/common.py: a replay fails if it fails under any of them
+    for k in range(len(common.TZS)):
+        common.set_tz(k)
+        ok, text = _replay(case)
+        if not ok:
+            return ok, '%s (TZ=%s)' % (text, common.TZS[k])
+    return ok, text
+
+
+def _replay(case):
     common.setup_repo()
     tree = Tree()
     try:
